@@ -182,8 +182,7 @@ class Report:
                 json.dump(payload, f, indent=1, default=str)
             tail = "" if (rep and rep.get("reproduced")) else " no-failing-input-found"
             lines.append(f"VIOLATION property={pid} replay={os.path.join(ROOT, path)}{tail}")
-            if exit_code == 0:
-                exit_code = 1
+            exit_code = 1  # a violation takes precedence over self-check failures (a canary may coincide with broken code)
         for ob, rep in spurious:
             lines.append(f"UNDECIDED property={pid} obligation={ob['name']} (solver model does not reproduce on the real code: engine over-approximation)")
         for x in unsupported[:20]:
